@@ -577,3 +577,127 @@ func TestVerifCacheRefusal(t *testing.T) {
 		enc.Encode(r)
 	}
 }
+
+// TestVerifStorm: "a single datagram cannot stall a worker" with several workers at once.  Decoders of data sets for
+// templates nobody has announced (each one asks the peers for the template - nobody serves that queue here, as with
+// -ipfix-rpc-enabled=false or a discovery that failed) from exporters in 4- and 16-octet form, next to decoders of
+// template announcements for many ids in all shards.  Every Decode call must return; the driver reports how many
+// goroutines are still inside one when the time is up.
+func TestVerifStorm(t *testing.T) {
+	out := os.Getenv("VERIF_OUT")
+	if out == "" {
+		t.Skip("driver: VERIF_OUT not set")
+	}
+	rounds := cEnvInt("VERIF_ROUNDS", 400)
+	cache := GetCache("")
+	exps := []net.IP{net.ParseIP("10.9.8.7"), {10, 9, 8, 7}, net.ParseIP("10.9.8.8"), net.ParseIP("2001:db8::5")}
+	var inside int64
+	var wg sync.WaitGroup
+	worker := func(w int, announce bool) {
+		defer wg.Done()
+		for i := 0; i < rounds; i++ {
+			id := 40000 + (i*7+w*13)%64
+			e := exps[(i+w)%len(exps)]
+			var m []byte
+			if announce {
+				m = cTplMsg(id, 51+(i+w)%200)
+			} else {
+				// several data sets of unknown templates in one message
+				m = cDataMsg(id)
+				m2 := cDataMsg(40000 + (i*5+w)%64)
+				m = append(m, m2[20:]...)
+				m[2], m[3] = 0, 2
+			}
+			atomic.AddInt64(&inside, 1)
+			NewDecoder(e, m).Decode(cache)
+			atomic.AddInt64(&inside, -1)
+		}
+	}
+	for w := 0; w < 4; w++ {
+		wg.Add(2)
+		go worker(w, false)
+		go worker(w+4, true)
+	}
+	// messages made of nothing but data sets of unknown templates, two decoders
+	many := func(w int) {
+		defer wg.Done()
+		m := cDataMsg(41000 + w)
+		one := append([]byte{}, m[len(m)-104:len(m)-100]...) // the set header
+		one[2], one[3] = 0, 4
+		hdr := append([]byte{}, m[:len(m)-104]...)
+		for k := 0; k < 100; k++ {
+			hdr = append(hdr, one...)
+		}
+		if hdr[1] == 10 {
+			hdr[2], hdr[3] = byte(len(hdr)>>8), byte(len(hdr))
+		}
+		for i := 0; i < rounds/4; i++ {
+			atomic.AddInt64(&inside, 1)
+			NewDecoder(exps[w%len(exps)], hdr).Decode(cache)
+			atomic.AddInt64(&inside, -1)
+		}
+	}
+	wg.Add(2)
+	go many(0)
+	go many(1)
+	// two lookups that miss, from an exporter in 16-octet form, for ids whose shards under the exporter's two address forms
+	// are each other's (a(X) = b(Y), b(X) = a(Y)), while announcements of OTHER exporters keep both shards busy
+	e16, e4 := net.ParseIP("10.9.8.7"), net.IP{10, 9, 8, 7}
+	sh := func(id int, e net.IP) *TemplatesShard { s, _ := cache.getShard(uint16(id), e); return s }
+	x, y := 0, 0
+	for a := 50000; a < 50400 && x == 0; a++ {
+		for b := a + 1; b < 50400; b++ {
+			if sh(a, e16) == sh(b, e4) && sh(a, e4) == sh(b, e16) && sh(a, e16) != sh(a, e4) {
+				x, y = a, b
+				break
+			}
+		}
+	}
+	if x != 0 {
+		other := net.IP{172, 16, 1, 1}
+		var wa, wb int
+		for id := 52000; id < 56000 && (wa == 0 || wb == 0); id++ {
+			if wa == 0 && sh(id, other) == sh(x, e16) {
+				wa = id
+			}
+			if wb == 0 && sh(id, other) == sh(x, e4) {
+				wb = id
+			}
+		}
+		lookup := func(id int) {
+			defer wg.Done()
+			m := cDataMsg(id)
+			for i := 0; i < rounds*4; i++ {
+				atomic.AddInt64(&inside, 1)
+				NewDecoder(e16, m).Decode(cache)
+				atomic.AddInt64(&inside, -1)
+			}
+		}
+		announce := func(id int) {
+			defer wg.Done()
+			for i := 0; i < rounds*4 && id != 0; i++ {
+				atomic.AddInt64(&inside, 1)
+				NewDecoder(other, cTplMsg(id, 51+i%200)).Decode(cache)
+				atomic.AddInt64(&inside, -1)
+			}
+		}
+		wg.Add(4)
+		go lookup(x)
+		go lookup(y)
+		go announce(wa)
+		go announce(wb)
+	}
+	finished := make(chan struct{})
+	go func() { wg.Wait(); close(finished) }()
+	stuck := 0
+	select {
+	case <-finished:
+	case <-time.After(time.Duration(cEnvInt("VERIF_HANG_S", 60)) * time.Second):
+		stuck = int(atomic.LoadInt64(&inside))
+		if stuck == 0 {
+			stuck = -1
+		}
+	}
+	b, _ := json.Marshal(map[string]interface{}{"stuck": stuck, "rounds": rounds})
+	ioutil.WriteFile(out, b, 0644)
+}
